@@ -79,14 +79,15 @@ func ReadPacket(r io.Reader) (pkt pkts.Packet, err error) {
 		return nil, err
 	}
 	rawPacket = rawPacket[:n]
-	if err := h.Unpack(rawPacket); err != nil {
+	headerLength, err := h.UnpackHeader(rawPacket)
+	if err != nil {
 		return nil, err
 	}
 	pkt, err = NewPacketWithHeader(h)
 	if err != nil {
 		return nil, err
 	}
-	if err := pkt.Unpack(rawPacket[h.HeaderLength():]); err != nil {
+	if err := pkt.Unpack(rawPacket[headerLength:]); err != nil {
 		return nil, err
 	}
 
